@@ -145,6 +145,24 @@ def run(cx):
         kind_rx = r"eq\((EventType::ResendDisconnect\{\},arg2\.kind|arg2\.kind,EventType::ResendDisconnect\{\})\)"
         cx.guard(inst, he, sends + tos, [[kind_rx]], construct="disconnect retry budget consumed by a foreign timer",
                  why="a stale handshake timer firing in Closing would run a second, shorter retry chain and report Timeout before 22 s")
+        # each retry is counted and the next one is scheduled one interval later (not, say, one linger period later)
+        from rules import rx_comm
+        srv_sends = list(sends)
+        tms = [l for l, node, ps in he.field_writes(r"arg2\.time") if node["k"] == "assign" and re.fullmatch(rx_comm("add", "arg3", r"server::DISCONNECT_RESEND_INTERVAL_MS"), show(he.rvalue_expr(node["rv"])))]
+        decs = [l for l, node, ps in he.field_writes(r"arg2\.count") if node["k"] == "assign" and show(he.rvalue_expr(node["rv"])) == "sub(arg2.count,1)"]
+        cx.followed_by(inst, he, srv_sends, tms, "server disconnect retry not re-armed one interval later", "event.time = now + DISCONNECT_RESEND_INTERVAL_MS")
+        cx.followed_by(inst, he, srv_sends, decs, "server disconnect retry not counted", "event.count -= 1")
+        for l, node, ps in he.field_writes(r"arg2\.time"):
+            if dnf_holds(fah.at(l), [[r"is\(.*\.state,Closing\)"]])[0] and l not in tms:
+                inst.violation(he.path, "Closing timer re-armed at another time", "the disconnect retry timer is re-armed at `%s`" % show(he.rvalue_expr(node["rv"]))[:100], at=he.span_at(l))
+        cl_sends = [(loc, "client resend in Closing") for loc, lab in call_sites(b, "UdpSocket::send") if dnf_holds(fa.at(loc), [[r"is\(arg1\.state,Closing\)"]])[0]]
+        ctm = [l for l, node, ps in b.field_writes(r"arg1\.state@Closing\.0\.resend_time_ms") if node["k"] == "assign" and re.fullmatch(rx_comm("add", "arg2", r"client::DISCONNECT_RESEND_INTERVAL_MS"), show(b.rvalue_expr(node["rv"])))]
+        cdec = [l for l, node, ps in b.field_writes(r"arg1\.state@Closing\.0\.resend_count") if node["k"] == "assign" and show(b.rvalue_expr(node["rv"])) == "sub(arg1.state@Closing.0.resend_count,1)"]
+        cx.followed_by(inst, b, cl_sends, ctm, "client disconnect retry not re-armed one interval later", "resend_time_ms = now + DISCONNECT_RESEND_INTERVAL_MS")
+        cx.followed_by(inst, b, cl_sends, cdec, "client disconnect retry not counted", "resend_count -= 1")
+        for l, node, ps in b.field_writes(r"arg1\.state@Closing\.0\.resend_time_ms"):
+            if l not in ctm:
+                inst.violation(b.path, "Closing timer re-armed at another time", "the client's disconnect retry is re-armed at `%s`" % show(b.rvalue_expr(node["rv"]))[:100], at=b.span_at(l))
         for loc, lab in sends:
             if "DisconnectFrame" not in show(he.call_expr(he.node_at(loc))):
                 inst.violation(he.path, "server resend frame", "the frame resent while Closing is not a DisconnectFrame", at=he.span_at(loc))
@@ -156,9 +174,18 @@ def run(cx):
                 act, _ = dnf_holds(fa.at(loc), [[r"is\([\w:.@\[\](),]*state,Active\)"]])
                 if act:
                     cx.preceded_by(inst, b, [(loc, "Disconnect in Active arm")], call_locs(b, "HalfConnection::receive"), "Disconnect before delivery", "HalfConnection::receive(sink)")
+            # a disconnect request is acknowledged in every state but Pending and Fin: any path through the handler
+            # that sends nothing takes an edge on which the state is known to be Pending or Fin
             acks = [l for l in call_locs(b, "UdpSocket::send") + call_locs(b, "UdpSocket::send_to")]
-            if len(acks) < 3:
-                inst.violation(b.path, "DisconnectAck", "a disconnect request is not acknowledged in all of Active, Closing and Closed")
+            fe = cx.fa(b)
+            quiet = [k for k, lits in fe.edge_lits.items() if any(re.fullmatch(r"is\([\w:.@\[\](),]*state,(Pending|Fin)\)", x) for x in lits)]
+            # server: an unknown address has no client at all
+            quiet += [k for k, lits in fe.edge_lits.items() if any(re.fullmatch(r"is\(HashMap::get\(arg1\.clients,arg2\),None\)", x) for x in lits)]
+            for l in acks:
+                inst.site(b, l, "DisconnectAck send")
+            w = b.reach_exit_avoiding_edges(acks, quiet) if acks else [0]
+            if w is not None:
+                inst.violation(b.path, "DisconnectAck", "a disconnect request can go unacknowledged in a state other than Pending/Fin", detail={"offending_path": b.path_spans(w)[:16]})
 
 
 _run_core = run
@@ -175,9 +202,16 @@ def run(cx):
     inst_resend_pairing(cx, "C09.g")
     from props.C04 import inst_fragment_flags
     inst_fragment_flags(cx, "C09.h")
+    # a resynchronisation offered while fragments still await (re)sending makes the receiver skip a Reliable packet,
+    # after which the queues drain and the flush "completes"
+    from props.C02 import inst_resync_guard
+    inst_resync_guard(cx, "C09.i")
 
 
 SELFTEST = [
+    {"name": "client no longer acknowledges repeated disconnect requests while Closed",
+     "edits": [{"file": "src/client/mod.rs", "old": "                // Acknowledge subsequent disconnection requests\n                let reply = frame::Frame::DisconnectAckFrame(frame::DisconnectAckFrame {});\n                let _ = self.socket.send(&reply.write());\n", "new": "                // Acknowledge subsequent disconnection requests\n"}],
+     "expect": ["C09.d"]},
     {"name": "treat DisconnectMode::Flush like Now (client)",
      "edits": [{"file": "src/client/mod.rs", "old": "Some(DisconnectMode::Flush) => !state.half_connection.is_send_pending(),", "new": "Some(DisconnectMode::Flush) => true,"}],
      "expect": ["C09.a"]},
